@@ -202,6 +202,9 @@ package jhttp
 //@   modifies jsonDecodes, jsonSource
 //@   ensures result1 != nil ==> result0 == nil
 //@   ensures forall(i int, 0 <= i && i < len(result0) ==> result0[i] != nil)
+//@   ensures[C18:whole-body-read] b.parseReq == nil ==> called("call.ReadAll#1")
+//@   ensures[C18:invalid-body-is-error] b.parseReq == nil && callres("call.ReadAll#1", 1, "error") == nil ==> (result1 != nil) == !jsonValid(str(callres("call.ReadAll#1", 0, "bytes")))
+//@   at call.ParseRequests#1 assert[C18:parses-the-whole-body] arg0 == callres("call.ReadAll#1", 0, "bytes")
 
 // A single response object is sent alone, anything else as an array; status 200.
 //@ func (Bridge).encodeResponses
